@@ -130,7 +130,7 @@ impl Eq for Rule {}
 
 impl Hash for Rule {
     fn hash<H: Hasher>(&self, state: &mut H) {
-        self.id.hash(state);
+        // must agree with `PartialEq`, which ignores the `id`
         self.resource.hash(state);
     }
 }
